@@ -518,7 +518,7 @@ pub fn check(ctx: &Ctx, rep: &mut Report) {
         ));
     }
     // random longer sequences
-    let nrand = ctx.size(100_000, 400_000) / ctx.nshards;
+    let nrand = ctx.size(100_000, 4_000_000) / ctx.nshards;
     for r in 0..nrand {
         let n = total + r;
         if !ctx.wants(n) {
